@@ -244,6 +244,8 @@ for _n, _f in _DEPTH:
           "every budget d in 1..=255 (inductive step: nested access sees d-1, d restored, d == 1 rejected without recursing); input fixed to an empty container",
           stubs=[CUT_SYNTAX, M_WS, CUT_PIT, CUT_FIX], cost=10))
 add(
+    H("u_root_value_padding_overrun", "main", ["C02", "C01", "C20"], ["Deserializer::deserialize_value (root Value through the padded DOM parser)", "Parser::error", "Read::{eat,set_index,index}"],
+      "input `\"abc`; the DOM parser's reported end offset arbitrary in 1..=len+3 (the parser itself is cut)", stubs=[CUT_SYNTAX, "cut: Value::parse_with_padding -> Ok(arbitrary end offset), value untouched"], cost=20),
     H("m_seq_next_element_n6", "main", ["C02"], ["SeqAccess::next_element_seed", "Deserializer::end_seq", "deserialize_ignored_any"],
       "every buffer of length <= 6 x every start index x first in {true,false} x every E", stubs=[CUT_SYNTAX, M_WS, M_ONE], cost=11),
     H("m_map_next_entry_n8", "main", ["C02"], ["MapAccess::next_key_seed", "MapAccess::next_value_seed", "MapKey::deserialize_any", "Parser::parse_object_clo"],
